@@ -353,6 +353,8 @@ class Interp:
         self.source_cache = {}
         self.loop_ordinals = {}
         self.max_unroll = 2000
+        self.loop_bound = None          # bounded fall-back mode (cli): explore at most this many iterations of a loop without usable contract
+        self.stale_loops = set()
         self.used_summaries = set()
         self.used_loop_contracts = set()
         self.reached_functions = set()
@@ -1157,8 +1159,45 @@ class Interp:
             return False
         return bool(stmts)
 
+    def sym_truth(self, v):
+        """truth value as a term, without forking; None when that is not possible"""
+        if isinstance(v, bool):
+            return v
+        if v is None:
+            return False
+        if isinstance(v, SymBool):
+            return v
+        if isinstance(v, (list, tuple, dict, str, bytes, set, frozenset)):
+            return len(v) != 0
+        if isinstance(v, int):
+            return v != 0
+        if hasattr(v, "sym_truth"):
+            return v.sym_truth()
+        if isinstance(v, SymChoice):
+            return self.sym_truth(v.map(lambda x: bool(x)))
+        return None
+
+    def merged_boolop(self, test, frame):
+        """`a and b` / `a or b` as ONE term when every operand has a fork-free truth value and evaluates without raising
+        (guarded mode, test of a guarded update only: the operands are evaluated unconditionally)"""
+        terms = []
+        for x in test.values:
+            try:
+                v = self.eval(x, frame)
+            except (PyRaise, Unsupported):
+                return None
+            t = self.sym_truth(v)
+            if t is None:
+                return None
+            terms.append(t)
+        return b_and(*terms) if isinstance(test.op, ast.And) else b_or(*terms)
+
     def s_If(self, st, frame):
-        c = self.eval(st.test, frame)
+        c = None
+        if getattr(self, "guarded", False) and not st.orelse and isinstance(st.test, ast.BoolOp) and self._guarded_update(st.body):
+            c = self.merged_boolop(st.test, frame)
+        if c is None:
+            c = self.eval(st.test, frame)
         if getattr(self, "guarded", False) and not st.orelse and self._guarded_update(st.body):
             if isinstance(c, SymChoice):
                 c = c.map(lambda x: bool(x))
@@ -1222,9 +1261,25 @@ class Interp:
             return None
         return (func.key, o)
 
+    def usable_contract(self, st, frame, lc):
+        """bounded fall-back mode: a loop contract written for a different loop header is not used at all"""
+        if lc is None or self.loop_bound is None or lc[0] is None:
+            return lc
+        if " ".join(lc[0].split()) != " ".join(self.loop_header_text(st, frame).split()):
+            self.stale_loops.add("%s:%d" % (frame.module.name, st.lineno))
+            return None
+        return lc
+
+    def beyond_bound(self, frame, st):
+        """bounded fall-back mode: the path is abandoned after `loop_bound` iterations of a loop without a usable contract"""
+        self.stale_loops.add("%s:%d" % (frame.module.name, st.lineno))
+        raise PathEnd("beyond the fall-back loop bound")
+
     def s_While(self, st, frame):
         key = self.loop_key(frame, st)
-        lc = self.loop_contracts.get(key) if key else None
+        lc0 = self.loop_contracts.get(key) if key else None
+        lc = self.usable_contract(st, frame, lc0)
+        stale = lc0 is not None and lc is None
         if lc is not None:
             return self.cut_loop(st, frame, key, lc, None)
         n = 0
@@ -1234,6 +1289,8 @@ class Interp:
             if not self.truth(c):
                 break
             n += 1
+            if self.loop_bound is not None and n > self.loop_bound and (stale or not is_plain(c)):
+                self.beyond_bound(frame, st)
             if n > self.max_unroll:
                 raise Unsupported("loop at %s:%d needs an invariant (unrolled %d times)" % (frame.module.name, st.lineno, n))
             try:
@@ -1250,6 +1307,7 @@ class Interp:
         it = self.eval(st.iter, frame)
         key = self.loop_key(frame, st)
         lc = self.loop_contracts.get(key) if key else None
+        lc = self.usable_contract(st, frame, lc)
         if lc is not None:
             return self.cut_loop(st, frame, key, lc, it)
         if hasattr(it, "sym_len") and not isinstance(it, self.bm.GList) and not isinstance(it.sym_len(self), int):
@@ -1258,6 +1316,8 @@ class Interp:
             k = 0
             broke = False
             while self.decide(cmp_op("<", k, n), "for-unroll"):
+                if self.loop_bound is not None and k >= self.loop_bound:
+                    self.beyond_bound(frame, st)
                 if k > 40:
                     raise Unsupported("for loop at %s:%d needs an invariant" % (frame.module.name, st.lineno))
                 self.assign(st.target, it.sym_item(self, k), frame)
@@ -1758,6 +1818,20 @@ class Interp:
             if func is None or func.cls is None:
                 raise Unsupported("super() outside a method")
             return SuperObj(func.cls, f.self_ if f.self_ is not None else frame.self_)
+        if self.guard_stack and isinstance(fn, ast.Attribute) and fn.attr in ("append", "extend", "insert", "remove", "pop", "clear") \
+                and isinstance(fn.value, ast.Name):
+            # a plain list updated while the body of a guarded (speculatively present) element runs: the update happens
+            # only if that element exists.  `name.append(x)` becomes an append under the current guard; anything else on a
+            # plain list is not modelled (never applied unconditionally)
+            recv = self.load_name(frame, fn.value.id)
+            if isinstance(recv, list):
+                if fn.attr != "append" or len(e.args) != 1 or e.keywords:
+                    raise Unsupported("list.%s on a plain list under a speculative guard" % fn.attr)
+                g = self.bm.GList([(True, v) for v in recv])
+                self.rebind_object(frame, recv, g)
+                self.store_name(frame, fn.value.id, g)
+                g.sym_method(self, "append", [self.eval(e.args[0], frame)], {})
+                return None
         f = self.eval(fn, frame)
         args = []
         for a in e.args:
@@ -1777,6 +1851,12 @@ class Interp:
         if isinstance(f, NativeFn) and getattr(f, "wants_frame", False):
             return f.fn(self, args, kwargs, frame)
         return self.call(f, args, kwargs)
+
+    def rebind_object(self, frame, old, new):
+        """other local names bound to the same list object follow it when it becomes a guarded list"""
+        for k, v in list(frame.locals.items()):
+            if v is old:
+                frame.locals[k] = new
 
     def e_Subscript(self, e, frame):
         obj = self.eval(e.value, frame)
@@ -1842,7 +1922,11 @@ class Interp:
             """-> new guard or None (element filtered out)"""
             for c in g.ifs:
                 try:
-                    v = self.eval(c, cframe)
+                    v = None
+                    if guarded and isinstance(c, ast.BoolOp):
+                        v = self.merged_boolop(c, cframe)      # `a and b` filter as one term instead of a fork per element
+                    if v is None:
+                        v = self.eval(c, cframe)
                 except PyRaise:
                     # the filter of a guarded element raises: real iff the element exists
                     if guard is True or self.decide(guard, "guarded-filter-raises"):
